@@ -300,6 +300,29 @@ def merge_idx_rules(ctx, obs, rule, which=(('_merge_idx', 'union'), ('_intersect
         ctx.check(rule, key + '#range-parameters', okd, 'candidate range(first, last + 1, second - first)', 'candidate range is %s' % [unparse(s.value) for s in d], obs.loc(f))
         t = [s for s in statements(f) if isinstance(s, ast.Assign) and unparse(s.targets[0]) == 'idtest']
         ctx.check(rule, key + '#range-test', len(t) == 1 and unparse(t[0].value).startswith('[list(idrange), id'), 'the candidate is compared element-wise with the sorted %s' % op, 'range test %s' % [unparse(s.value) for s in t], obs.loc(f))
+        # every other return must be one of the known forms; a range built from an inclusive last element must include it
+        for r in rets:
+            v = r.value
+            txt = unparse(v)
+            if txt in ('%s[0]' % p, 'idrange', 'idunion', 'idinter'):
+                continue
+            if isinstance(v, ast.Call) and call_name(v) == 'range' and len(v.args) >= 2:
+                stop = v.args[1]
+                incl = False
+                if isinstance(stop, ast.BinOp) and isinstance(stop.op, ast.Add):
+                    incl = True
+                if isinstance(stop, ast.Name):
+                    ds = [x for x in statements(f) if isinstance(x, ast.Assign) and unparse(x.targets[0]) == stop.id]
+                    if ds and all(isinstance(x.value, ast.BinOp) and isinstance(x.value.op, ast.Add) for x in ds):
+                        incl = True
+                    last_like = ds and all('[-1]' in unparse(x.value) for x in ds)
+                    if last_like and not incl:
+                        ctx.violated(rule, key + '#extra-return[%s]' % txt, 'an additional return builds %s where `%s` is the last common configuration itself: range() excludes its stop value, '
+                                     'so that configuration is dropped from the %s' % (txt, stop.id, op), obs.loc(r))
+                        continue
+                ctx.unrec(rule, key + '#extra-return[%s]' % txt, 'additional return path not understood', obs.loc(r))
+            else:
+                ctx.unrec(rule, key + '#extra-return[%s]' % txt[:40], 'additional return path not understood', obs.loc(r))
         srt = [s for s in statements(f) if isinstance(s, ast.Assign) and isinstance(s.value, ast.Call) and call_name(s.value) == 'sorted']
         want = 'sorted(set().union(*%s))' % p if op == 'union' else 'sorted(set.intersection(*[set(o) for o in %s]))' % p
         ctx.check(rule, key + '#sorted-%s' % op, len(srt) == 1 and unparse(srt[0].value) == want, 'result = sorted %s of the lists' % op, 'result built as %s' % [unparse(s.value) for s in srt], obs.loc(f))
